@@ -294,7 +294,8 @@ class Interp:
                     and len(self.trace) == mark_trace:
                 del self.events[mark_events:]
                 del self.assumptions[mark_asm:]
-                self.event("opaque_call", func=q, args=args, node=node, why=str(e))
+                self.event("opaque_call", func=q, args=args, node=node, why=str(e), where=self._where(node),
+                           snapshot=self.theory.snapshot(), caller=getattr(self.cur_frame.func, "short", None))
                 return Sym("call", q, tuple(ops.freeze(a) for a in args))
             raise
 
